@@ -187,6 +187,20 @@ def main():
         time.sleep(100000)
     elif action == "os_exit":
         os._exit(0)
+    elif action == "exit_after_fork":
+        # a process forked off earlier (multiprocessing's fork start method, a daemonised helper) still holds copies of the
+        # pipes when the initiator tells its gateways to exit and leaves: the workers see the exit request, but no EOF
+        pid = os.fork()
+        if pid == 0:
+            try:
+                time.sleep(60)
+            finally:
+                os._exit(0)
+        emit(event="helper_pid", pid=pid)
+        for gw in gws.values():
+            _quiet(gw.exit)
+        time.sleep(0.3)
+        os._exit(0)
     elif action == "normal_exit":
         return
     elif action == "close_connection":
